@@ -64,24 +64,22 @@ Proof.
   destruct cs; destruct a; solve_case.
 Qed.
 
-Lemma result_type_strict_cond_cpp w a b : strict w -> (crank a = crank b -> a = b) ->
+Lemma result_type_strict_cond_cpp w a b : strict w ->
   ctype_of (result_type OTernary (vt_of a) (vt_of b)) = Some (c_result true w CCond a b).
 Proof.
-  destruct w as [wc ws wi wl wll cs]. unfold strict. cbn [w_char w_short w_int w_long w_llong]. intros (H1 & H2 & H3 & H4 & H5) Hab.
-  destruct cs; destruct a, b; try (specialize (Hab eq_refl); discriminate); clear Hab; solve_case.
+  destruct w as [wc ws wi wl wll cs]. unfold strict. cbn [w_char w_short w_int w_long w_llong]. intros (H1 & H2 & H3 & H4 & H5).
+  destruct cs; destruct a, b; solve_case.
 Qed.
 
-(* all operators, C++ reading of comparison and conditional; for the conditional the two operands
-   must not be two different types of one rank (see conditional_mixed_sign_refuted) *)
+(* all operators, C++ reading of comparison and conditional *)
 Theorem result_type_spec_under_strict_widths w op a b : strict w ->
-  (op = CCond -> crank a = crank b -> a = b) ->
   ctype_of (result_type (opk_of op) (vt_of a) (vt_of b)) = Some (c_result true w op a b).
 Proof.
-  intros H Hc. destruct op.
+  intros H. destruct op.
   - exact (result_type_strict_arith w a b H).
   - exact (result_type_strict_shift w a b H).
   - reflexivity.
-  - exact (result_type_strict_cond_cpp w a b H (Hc eq_refl)).
+  - exact (result_type_strict_cond_cpp w a b H).
 Qed.
 
 (* C: arithmetic, bit and shift operators (comparison and ?: differ, see the refutations) *)
